@@ -20,13 +20,27 @@ MANIFEST = dict(
          "more the no-lost-wake-up invariant of C05 holds again after at most two re-armings. The switch arms, the API methods' queue-call "
          "sequences, their error propagation and the Reset guards are regenerated from scheduler.go on every run. A fault-injecting JobQueue "
          "drives the real scheduler: single faults (fail or delay) at every call index of each of the eight methods over a fixed scenario, "
-         "bursts of up to 50 consecutive failures, random mixes and a uniformly slow queue; API results, the queue calls each API made (compared "
+         "bursts of up to 50 consecutive failures, random mixes and a uniformly slow queue; the injected error is plain, wraps "
+         "context.DeadlineExceeded / context.Canceled (a store with per-operation deadlines, while the scheduler's own context is alive) or wraps "
+         "quartz.ErrQueueEmpty / ErrJobNotFound on operations where that sentinel is not an answer of the JobQueue contract, also in quiet bursts "
+         "during which no API call wakes the loop; API results, the queue calls each API made (compared "
          "with the Coq model), the loop's call rate per RetryInterval window, the distance between consecutive failing Pops, executions versus "
          "trigger calls and post-fault liveness are checked. Real-time rates are observed, not proved.",
     design_ref="6 C15")
 
 FAIL_PER_WINDOW = 40      # failing loop calls of one method per RetryInterval window (spinning gives thousands)
 CALLS_PER_WINDOW = 1500
+
+
+ERR_KINDS = {"deadline": "an error that wraps context.DeadlineExceeded (the queue's own per-operation deadline; the scheduler's context is alive)",
+             "canceled": "an error that wraps context.Canceled (of the queue's own operation; the scheduler's context is alive)",
+             "queue_empty": "an error that wraps quartz.ErrQueueEmpty (on an operation where that is not an answer of the JobQueue contract)",
+             "not_found": "an error that wraps quartz.ErrJobNotFound (on an operation where that is not an answer of the JobQueue contract)",
+             "mixed": "errors of a kind drawn per fault: plain, wrapping context.DeadlineExceeded / context.Canceled / quartz.ErrQueueEmpty / quartz.ErrJobNotFound"}
+
+
+def injected(plan):
+    return ERR_KINDS.get(plan.get("err") or "", "a plain error")
 
 
 def oracle(r):
@@ -143,6 +157,7 @@ def run(ctx):
         rc2, again, _ = run_faults(binp, ctx.seed + 1, ctx.tier, only=r["id"])
         if rc2 != 0 or any(oracle(x) for x in again):
             failures.append({"case": {"id": r["id"], "plan": r["plan"], "seed": ctx.seed, "tier": ctx.tier}, "why": why,
+                             "the_planned_queue_calls_fail_with": injected(r["plan"]), "failing_plans_in_this_run": len([x for x in rows if oracle(x)]),
                              "how": "looph faults: fixed API scenario on a scheduler whose JobQueue fails/delays the planned calls"})
     if lc.model_available() and rows:
         bad, mout = model_mismatches(rows)
@@ -172,7 +187,9 @@ def run(ctx):
         "api_calls": sum(len(r["apis"]) for r in rows),
         "distinct_nontrivial": len({json.dumps(r["plan"], sort_keys=True) for r in rows if r["faults_fired"] > 0 or r["plan"]["fault"] == "delay" or r["plan"]["kind"] == "slow"}),
         "rule": "single fail / delay at call index i of each of Size, Head, Pop, Push, Get, Remove, ScheduledJobs, Clear over a fixed scenario of 18 API "
-                "calls on 6 jobs; bursts of 2/10/50 consecutive failures of Size/Head/Pop; random mixes 5/20/50 %; uniformly slow queue; "
+                "calls on 6 jobs; bursts of 2/10/50 consecutive failures of Size/Head/Pop; random mixes 5/20/50 %; uniformly slow queue; error kinds "
+                "{plain, wraps context.DeadlineExceeded, wraps context.Canceled, wraps ErrQueueEmpty (not on Head/Pop), wraps ErrJobNotFound (not on "
+                "Get/Remove)} as quiet bursts of 1-2 on Size/Head/Pop, single faults on every method, random mixes; "
                 "non-trivial = at least one fault actually fired",
         "samples": [{"plan": r["plan"], "faults_fired": r["faults_fired"], "max_failing_calls_per_window": r["max_failing_calls_per_window"]} for r in rows[1:4]],
         "exhaustive": False, "model_mismatches": len(mismatches), "oracle_failures": len(failures),
